@@ -150,7 +150,14 @@ fn frontend_replies(cfg: &Cfg, rng: &mut Rng) {
                 invalid.push(("zero-size".into(), spec::p_config(*offset, 0, *flags, &[])));
                 if *size > 1 {
                     invalid.push(("smaller-size".into(), spec::p_config(*offset, size - 1, *flags, &data[1..])));
+                    // fixed body intact, variable payload missing / cut / longer than announced
+                    invalid.push(("payload-dropped".into(), spec::p_config(*offset, *size, *flags, &[])));
+                    invalid.push(("payload-halved".into(), spec::p_config(*offset, *size, *flags, &data[..data.len() / 2])));
+                    invalid.push(("payload-one-short".into(), spec::p_config(*offset, *size, *flags, &data[1..])));
                 }
+                let mut longer = data.clone();
+                longer.push(0x22);
+                invalid.push(("payload-one-long".into(), spec::p_config(*offset, *size, *flags, &longer)));
             }
             (FeOp::GetInflightFd(..), _) => {
                 invalid.push(("zero-queues".into(), spec::p_inflight(1, 0, 0, 4)));
